@@ -85,6 +85,16 @@ CHECKS = {
    design_ref='5 (C01), 4.3',
    note=TB + ' Slider lookups replaced by the ray-walk reference proven equal in C06; L0 summary used in L4; concrete reference rules are additionally compared with the native engine on the repository FENs.',
    technique='symbolic execution of rustc MIR into z3 bit-vector terms; lemma decomposition with summaries; 1.2k unsat queries; native replay judged by a mailbox reference'),
+ 'C11': dict(
+   category='other',
+   text=('Induction over the height of the look-ahead tree, one node per obligation: the real alpha_beta, quiescence, alpha_beta_start, iter_deep/search, MoveOrderer and score_move '
+         'are executed from MIR on one node with n pseudo-legal moves (n <= 3 quick, <= 4 thorough), recursive calls replaced by any result the fail-soft window contract allows for free child values; '
+         'z3 (linear integer arithmetic, scores in exact integer mode) shows that the node result obeys the same contract w.r.t. the reference value of the property statement '
+         '(draws, check extension, quiescence at the horizon, mate by distance, stalemate), that children are searched with depth-1 and proper windows, that the root score and chosen move are exact, '
+         'and that no panic is reachable; for all flags, evaluations, windows, plies, killer contents and every ordering the real orderer can produce. Level other: bounded number of moves per node, composition by induction is documented.'),
+   design_ref='5 (C11), 4.4',
+   note=TB + ' Board through a one-level abstract game; transposition table off; killer table and statistics arbitrary; clock free; no limits; capture-only list modelled as full list with non-captures rejected.',
+   technique='symbolic execution of rustc MIR into z3 integer terms; inductive step with a window-search contract for recursive calls; path-by-path execution of the move orderer'),
 }
 NA = {
  'C10': 'quantifies over OS-thread interleavings (relaxed AtomicBool + JoinHandle::is_finished); MIR has no thread semantics and Kani does not model concurrency - outside solver-based checking of the real code (DESIGN.md 6)',
